@@ -29,8 +29,6 @@ def bigValues (db : DB) : Bool :=
 def classify (m : List Bool) (db : DB) (r : Rule) : String :=
   let sip := m.getD 1 false
   if C01.aggNotLast r then "aggregate_not_last_in_head"
-  else if C01.sameRelWildcard r then "same_relation_wildcard_position"
-  else if C01.pushdownShift r then "filter_pushdown_key_shift"
   else if sip && r.posAtoms.length ≥ 2 && r.posAtoms.any C02.atomHasNonVarColumn then "sip_drops_columns_under_aggregate"
   else if C02.hasRepeatedVarAtom [r] then "repeated_variable_in_atom"
   else if r.hargs.any (fun | .agg .sum _ => true | .agg .avg _ => true | _ => false) && bigValues db then "sum_partial_saturation"
